@@ -63,6 +63,11 @@ func (f *g2lFn) compileBody(monad string) (lines []string) {
 	default:
 		f.retType = "(" + strings.Join(rts, " × ") + ")"
 	}
+	f.effType = f.u.effFns[f.goName]
+	if f.effType != "" {
+		f.retType = "(" + f.retType + " × List " + f.effType + ")"
+		lines = append(lines, "let effLog : List "+f.effType+" := []")
+	}
 	if f.named {
 		for _, r := range f.results {
 			if r.Name() == "" || r.Name() == "_" {
@@ -73,10 +78,10 @@ func (f *g2lFn) compileBody(monad string) (lines []string) {
 	}
 	end := func() []string {
 		if len(f.results) == 0 {
-			return []string{"pure ()"}
+			return f.retTerm("()")
 		}
 		if f.named {
-			return []string{"pure " + f.namedTuple()}
+			return f.retTerm(f.namedTuple())
 		}
 		f.bad(f.fd, "control reaches the end of a function with results")
 		return nil
@@ -167,7 +172,8 @@ func containsWord(s, w string) bool {
 		j += i
 		before := j == 0 || !isWordByte(s[j-1])
 		after := j+len(w) >= len(s) || !isWordByte(s[j+len(w)])
-		if before && after {
+		// a struct FIELD of the same name (`{ t with H := … }`, `(t).H`) is not a use of the type variable
+		if before && after && !strings.HasPrefix(strings.TrimLeft(s[j+len(w):], " "), ":=") {
 			return true
 		}
 		i = j + len(w)
@@ -260,15 +266,28 @@ func (u *g2lUnit) structDecl(p *g2lPkg, name string, f *g2lFn) string {
 		return ""
 	}
 	b := &strings.Builder{}
-	fmt.Fprintf(b, "/-- `type %s struct` -/\nstructure %s where\n", name, name)
+	tvs, tvInst := "", ""
+	if u.structTV[name] {
+		for _, tv := range sortedVals(u.absTypes) {
+			tvs += fmt.Sprintf(" (%s : Type)", tv)
+			tvInst += fmt.Sprintf(" {%s : Type} [Inhabited %s]", tv, tv)
+		}
+	}
+	fmt.Fprintf(b, "/-- `type %s struct` -/\nstructure %s%s where\n", name, name, tvs)
 	zeros := []string{}
 	for i := 0; i < st.NumFields(); i++ {
 		fl := st.Field(i)
 		fmt.Fprintf(b, "  %s : %s\n", leanIdent(fl.Name()), f.leanType(fl.Type(), f.fd))
 		zeros = append(zeros, fmt.Sprintf("%s := %s", leanIdent(fl.Name()), f.zero(fl.Type(), f.fd)))
 	}
-	fmt.Fprintf(b, "  deriving DecidableEq, Repr\n")
-	fmt.Fprintf(b, "instance : Inhabited %s := ⟨{ %s }⟩\n", name, strings.Join(zeros, ", "))
+	switch {
+	case u.noEq[name]:
+	case u.structTV[name]:
+		fmt.Fprintf(b, "  deriving DecidableEq\n")
+	default:
+		fmt.Fprintf(b, "  deriving DecidableEq, Repr\n")
+	}
+	fmt.Fprintf(b, "instance%s : Inhabited %s := ⟨{ %s }⟩\n", tvInst, f.structType(name), strings.Join(zeros, ", "))
 	return b.String()
 }
 
@@ -280,9 +299,38 @@ func g2lEmitUnit(u *g2lUnit) string {
 	for _, im := range u.imports {
 		fmt.Fprintf(b, "import %s\n", im)
 	}
-	fmt.Fprintf(b, "set_option linter.unusedVariables false\nnamespace ModVerif.Generated.%s\nopen ModVerif ModVerif.GoRt\n\n", u.ns)
+	fmt.Fprintf(b, "set_option linter.unusedVariables false\nnamespace ModVerif.Generated.%s\nopen ModVerif ModVerif.GoRt %s\n\n", u.ns, strings.Join(u.opens, " "))
 	// struct types first (those named in u.structs order)
 	dummy := &g2lFn{u: u, p: p}
+	u.structTV = map[string]bool{}
+	for changed := true; changed; {
+		changed = false
+		for _, s := range u.structNames {
+			o := p.pkg.Scope().Lookup(s)
+			if o == nil || u.structTV[s] {
+				continue
+			}
+			st, ok := o.Type().Underlying().(*types.Struct)
+			if !ok {
+				continue
+			}
+			for i := 0; i < st.NumFields(); i++ {
+				ft := st.Field(i).Type()
+				if pt, ok := ft.(*types.Pointer); ok {
+					ft = pt.Elem()
+				}
+				if sl, ok := ft.Underlying().(*types.Slice); ok {
+					ft = sl.Elem()
+				}
+				if n, ok := ft.(*types.Named); ok {
+					if _, abs := u.absTypes[n.Obj().Name()]; abs || u.structTV[n.Obj().Name()] {
+						u.structTV[s] = true
+						changed = true
+					}
+				}
+			}
+		}
+	}
 	for _, s := range u.structNames {
 		func() {
 			defer func() {
@@ -290,6 +338,10 @@ func g2lEmitUnit(u *g2lUnit) string {
 					fmt.Fprintf(b, "-- UNTRANSLATABLE struct %s: %v\n\n", s, r)
 				}
 			}()
+			if txt, ok := u.ifaceStructs[s]; ok {
+				b.WriteString(txt + "\n")
+				return
+			}
 			dummy.fd = nil
 			for _, fd := range p.decls {
 				dummy.fd = fd
@@ -298,6 +350,7 @@ func g2lEmitUnit(u *g2lUnit) string {
 			b.WriteString(u.structDecl(p, s, dummy) + "\n")
 		}()
 	}
+	b.WriteString(u.preamble)
 	for _, name := range u.order(p) {
 		fd := p.decls[name]
 		key := u.pkgDir + "." + name
@@ -336,4 +389,13 @@ func genGo2Lean() {
 		text := g2lEmitUnit(u)
 		writeIfChanged(filepath.Join(*out, u.out+".lean"), []byte(text))
 	}
+}
+
+func sortedKeys(m map[string]string) []string {
+	out := []string{}
+	for k := range m {
+		out = append(out, k)
+	}
+	sort.Strings(out)
+	return out
 }
